@@ -851,3 +851,100 @@ Proof.
   pose proof (parse_init_ok buf L pos fill A B) as K. pose proof (parse_init_ok buf' L' pos' fill A' B') as K'.
   destruct (parse_init buf L pos fill); destruct (parse_init buf' L' pos' fill); try contradiction; auto; congruence.
 Qed.
+
+(** * Stage C'': the concrete retry loop computes the abstract one *)
+Definition Uof (s : hst) : list Z := ring_u (h_buf s) (h_pos s) (h_fill s).
+
+Lemma hring_facts s : hring s ->
+  0 < lenZ (h_buf s) /\ 0 <= h_pos s < lenZ (h_buf s) /\ 0 <= h_fill s <= lenZ (h_buf s) /\ 0 <= h_cl s /\ h_base s = true /\
+  lenZ (Uof s) = h_fill s.
+Proof.
+  intros ((P & F & PL & C & CB) & L0 & PL' & B). repeat split; try lia; auto.
+  unfold Uof. apply lenZ_ring_u; lia.
+Qed.
+
+Lemma hring_view s : hring s -> forall p, 0 <= p < h_fill s ->
+  gb (h_buf s) (lenZ (h_buf s)) (h_pos s) p = gb (Uof s ++ [0]) (lenZ (Uof s) + 1) 0 p.
+Proof.
+  intros R p Hp. destruct (hring_facts s R) as (A & B & C & D & E & F).
+  rewrite gb_lring by lia. unfold Uof. apply gb_ring; auto; lia.
+Qed.
+
+(* programs without reads leave the kernel buffer alone *)
+Inductive readfree {S} : prog S -> Prop :=
+| rf_done s r : readfree (PDone s r)
+| rf_up d z p : readfree p -> readfree (PUp d z p)
+| rf_dn d p : readfree p -> readfree (PDn d p)
+| rf_mark n p : readfree p -> readfree (PMark n p)
+| rf_hdr n p : readfree p -> readfree (PHdr n p)
+| rf_fault : readfree PFault.
+Lemma readfree_exec {S} (p : prog S) : readfree p -> forall kb o k e, exec p kb = (o, k, e) -> k = kb.
+Proof.
+  induction 1; intros kb o k0 e0 E; simpl in E;
+    try (destruct (exec p kb) as [[o' k'] e'] eqn:E'; inversion E; subst; eauto; fail);
+    inversion E; auto.
+Qed.
+Lemma readfree_flush {S} q (p : prog S) : readfree p -> readfree (flush_queue q p).
+Proof. induction q; simpl; auto. intros. constructor. auto. Qed.
+Lemma readfree_handover s : readfree (http_handover s).
+Proof.
+  unfold http_handover. cbv zeta.
+  assert (F : forall a b r z, readfree (flush_queue (h_queue s)
+     (if r =? 1 then PUp [] z (PDone {| h_state := HT_CONNECTED; h_base := h_base s; h_queue := []; h_buf := h_buf s; h_pos := a; h_fill := b; h_cl := h_cl s |} 1)
+      else PDone {| h_state := HT_CONNECTED; h_base := h_base s; h_queue := []; h_buf := h_buf s; h_pos := a; h_fill := b; h_cl := h_cl s |} 0))).
+  { intros. apply readfree_flush. destruct (r =? 1); repeat constructor. }
+  destruct (0 <? h_fill s); [|apply F]. constructor.
+  destruct (_ <? _).
+  - destruct (mreadn _ _ _); [|constructor]. destruct (mreadn _ _ _); [|constructor]. apply F.
+  - destruct (mreadn _ _ _); [|constructor]. apply F.
+Qed.
+Lemma readfree_parse : forall fuel s, readfree (http_parse fuel s).
+Proof.
+  induction fuel as [|f IH]; intros s; simpl; [constructor|]. cbv zeta.
+  destruct (_ =? HT_INIT).
+  { destruct (parse_init _ _ _ _); auto; try constructor. }
+  destruct (_ =? HT_HEADERS).
+  { destruct (parse_header _ _ _ _ _) as [[r c] st]. unfold mark_if.
+    assert (X : readfree match r with
+       | PrFault => PFault | PrNeed => PDone (with_ring s HT_HEADERS (h_pos s) (h_fill s) c) 0
+       | PrErr => http_error (with_ring s HT_HEADERS (h_pos s) (h_fill s) c)
+       | PrOk n => http_parse f (with_ring s (if n =? 2 then HT_BODY else HT_HEADERS) ((h_pos s + n) mod lenZ (h_buf s)) (h_fill s - n) c) end).
+    { destruct r; auto; constructor. }
+    destruct st; [constructor|]; exact X. }
+  destruct (_ =? HT_BODY).
+  { destruct (_ =? 0); auto. destruct (_ =? 0); auto. constructor. }
+  destruct (_ =? HT_CONNECTED); [apply readfree_handover | constructor].
+Qed.
+
+Lemma vis_map_dn q : vis vis_str (map Dn q) = map ODn q.
+Proof. induction q; simpl; auto. unfold vis in *. simpl. rewrite IHq. reflexivity. Qed.
+
+(* the hand-over at the end of the handshake *)
+Lemma handover_exec s kb o k e : hring s -> exec (http_handover s) kb = (o, k, e) ->
+  exists s' ret, o = Some (s', ret) /\ 0 <= ret /\ h_state s' = HT_CONNECTED /\ h_base s' = true /\ hinv s' /\
+    (h_fill s = 0 -> vis vis_str e = map ODn (h_queue s)) /\ (0 < h_fill s -> clean e = false).
+Proof.
+  intros R E. destruct (hring_facts s R) as (A & B & C & D & Bs & F).
+  pose proof (handover_ok s R) as [SAFE LEAVES].
+  destruct o as [[s' ret]|]; [|exfalso; exact (safe_exec _ SAFE _ _ _ E)].
+  exists s', ret. split; auto.
+  assert (P' : 0 <= ret /\ h_state s' = HT_CONNECTED /\ h_base s' = true).
+  { revert E. apply (leaves_exec (fun s1 r => 0 <= r /\ h_state s1 = HT_CONNECTED /\ h_base s1 = true) (http_handover s)).
+    unfold http_handover. cbv zeta.
+    assert (FIN : forall a b r z, leaves (fun s1 r0 => 0 <= r0 /\ h_state s1 = HT_CONNECTED /\ h_base s1 = true)
+      (flush_queue (h_queue s)
+        (if r =? 1 then PUp [] z (PDone {| h_state := HT_CONNECTED; h_base := h_base s; h_queue := []; h_buf := h_buf s; h_pos := a; h_fill := b; h_cl := h_cl s |} 1)
+         else PDone {| h_state := HT_CONNECTED; h_base := h_base s; h_queue := []; h_buf := h_buf s; h_pos := a; h_fill := b; h_cl := h_cl s |} 0))).
+    { intros. apply flush_queue_leaves. destruct (r =? 1); repeat (apply lv_up || apply lv_done); simpl; repeat split; auto; lia. }
+    destruct (0 <? h_fill s); [|apply FIN]. constructor.
+    destruct (_ <? _).
+    - destruct (mreadn _ _ _); [|constructor]. destruct (mreadn _ _ _); [|constructor]. apply FIN.
+    - destruct (mreadn _ _ _); [|constructor]. apply FIN. }
+  destruct P' as (P1 & P2 & P3). repeat split; auto.
+  - exact (leaves_exec hP _ LEAVES _ _ _ _ _ E P1).
+  - intros F0. unfold http_handover in E. cbv zeta in E. rewrite F0 in E. change (0 <? 0) with false in E. cbv iota in E.
+    rewrite exec_flush_queue in E. simpl in E. inversion E; subst. rewrite vis_app, vis_map_dn. simpl. rewrite app_nil_r. reflexivity.
+  - intros FP. unfold http_handover in E. cbv zeta in E. destruct (Z.ltb_spec 0 (h_fill s)); [|lia].
+    simpl in E. match type of E with (let '(_, _, _) := ?X in _) = _ => destruct X as [[o' k'] e'] end.
+    inversion E; subst. reflexivity.
+Qed.
